@@ -584,7 +584,10 @@ Section MGet.
         match last_msg exec with
         | None => Panic                                            (* exec[len(exec)-1] *)
         | Some lastv =>
-          if (length rewritten =? length commands)%nat then Ok (new_result lastv)
+          (* the transaction went through but the rewritten command itself was answered with an error: its flights
+             are cancelled with that error (see [mget_fail_cancels]) and the reply is handed back as it is *)
+          if (match msg_error lastv with Some _ => true | None => false end) then Ok (new_result lastv)
+          else if (length rewritten =? length commands)%nat then Ok (new_result lastv)
           else
             let partial := m_vals lastv in
             (* the reader commits only when the EXEC array has at least two elements *)
@@ -600,6 +603,38 @@ Section MGet.
       end
     end.
 End MGet.
+
+(** the failure path of doCacheMGet: which flights are cancelled when the rewritten request fails
+    ([for _, key := range rewritten.Commands()[1 : keys+1] { p.cache.Cancel(key, mgetcc, err) }] with the inner
+    [keys] = number of rewritten keys; the same loop runs when EXEC succeeds but the rewritten command's own
+    reply is an error).  [None]: the request did not fail (or nothing was sent). *)
+Definition mget_fail_cancels (lookup : key -> bytes -> lk) (srv : argv -> msg) (qerr : argv -> option msg) (optin : bool)
+           (commands : argv) : option (list key * err) :=
+  let json := is_json commands in
+  let nkeys := ((length commands - 1) - (if json then 1 else 0))%nat in
+  let cc := mget_cc commands in
+  let ks := firstn nkeys (skipn 1 commands) in
+  let st := mget_scan lookup cc nkeys ks in
+  let misskeys := ms_rewrite st in
+  match misskeys with
+  | [] => None
+  | _ =>
+    let rewritten := (nth 0 commands [] :: misskeys) ++ (if json then [last commands []] else []) in
+    let inner_keys := ((length rewritten - 1) - (if json then 1 else 0))%nat in
+    let multi := [optin_cmd optin; [bs "MULTI"]] ++ map (fun k => [bs "PTTL"; k]) misskeys ++ [rewritten; [bs "EXEC"]] in
+    let resp := redis_wire srv qerr multi in
+    match to_array (rnth (length multi - 1) resp) with
+    | inr e => Some (firstn inner_keys (skipn 1 rewritten), abort_err e (rnth (length multi - 2) resp))
+    | inl exec =>
+      match last_msg exec with
+      | Some lastv => match msg_error lastv with
+                      | Some e => Some (firstn inner_keys (skipn 1 rewritten), e)
+                      | None => None
+                      end
+      | None => None
+      end
+    end
+  end.
 
 (** * mux.DoMultiCache and cluster.DoMultiCache: regrouping with recorded indices *)
 
@@ -977,6 +1012,9 @@ Inductive case :=
 (** pipe.DoCache on MGET / JSON.MGET *)
 | CMGet (optin : bool) (commands : argv) (lks : list ((key * bytes) * lk))
         (srvt qt : list (argv * msg)) (obs : result rres)
+(** pipe.DoCache on MGET / JSON.MGET whose rewritten request fails: result and the cancelled flights *)
+| CMGetFail (optin : bool) (commands : argv) (lks : list ((key * bytes) * lk))
+            (srvt qt : list (argv * msg)) (obs : result rres) (cancelled : list key)
 (** mux.DoMultiCache over [nwires] connections; [slots] gives cmd.Slot() per command *)
 | CMux (nwires : N) (optin : bool) (batch : list item) (slots : list (argv * N)) (lks : list ((key * bytes) * lk))
        (srvt qt : list (argv * msg)) (obs : result (list rres))
@@ -1004,6 +1042,12 @@ Definition check_case (c : case) : bool :=
       (do_multi_cache (tab_lookup lks) (tab_srv srvt) (tab_q qt) optin use_lru batch) obs
   | CMGet optin commands lks srvt qt obs =>
     result_eqb rres_eqb (do_cache_mget (tab_lookup lks) (tab_srv srvt) (tab_q qt) optin commands) obs
+  | CMGetFail optin commands lks srvt qt obs cancelled =>
+    result_eqb rres_eqb (do_cache_mget (tab_lookup lks) (tab_srv srvt) (tab_q qt) optin commands) obs &&
+    match mget_fail_cancels (tab_lookup lks) (tab_srv srvt) (tab_q qt) optin commands with
+    | Some (ks, _) => list_eqb bytes_eqb ks cancelled
+    | None => match cancelled with [] => true | _ => false end
+    end
   | CMux nwires optin batch slots lks srvt qt obs =>
     let slot_of := fun it => match assoc_argv (it_argv it) slots with Some s => s | None => 0 end in
     let g := fun it => N.land (slot_of it) (nwires - 1) in
